@@ -340,3 +340,59 @@ def run(rep, prop, thorough, families=('join', 'join2', 'agg', 'topn')):
                                        'wall_s': round(time.time() - t0, 1)}
     run_large(rep, thorough, families)
     rep.cov['trusted_base'] = list(rep.cov.get('trusted_base', [])) + ['python sqlite3 %s as the reference reading of each operator in the executor conformance probes' % sqlite3.sqlite_version]
+
+
+def run_hetero(rep, thorough):
+    """Joins whose two sides have different schemas (column counts and types): the executors type their output and their
+    NULL padding from the two sides' type lists, which the uniform (INT, INT) x (INT, INT) probes cannot tell apart.
+    Nested-loop vs hash vs merge join for inner / left / right / full joins, each against the rows computed here."""
+    l_rows = [(1, 'a'), (2, 'b'), (2, 'c'), (4, None), (None, 'n'), (7, 'g')]
+    r_rows = [(2, 20, True), (2, 21, False), (3, 30, None), (4, 40, True), (None, 50, False)]
+    setup = ['create table hl(a int, s varchar)', 'create table hr(c int, d bigint, e boolean)',
+             'insert into hl values ' + ', '.join('(%s, %s)' % ('NULL' if a is None else a, 'NULL' if s is None else "'%s'" % s) for a, s in l_rows),
+             'insert into hr values ' + ', '.join('(%s, %s, %s)' % ('NULL' if c is None else c, d, 'NULL' if e is None else str(e).lower()) for c, d, e in r_rows)]
+    fmt = lambda v: None if v is None else (str(v).lower() if isinstance(v, bool) else str(v))
+    def expected(jt):
+        out, lm, rm = [], set(), set()
+        for i, (a, s) in enumerate(l_rows):
+            for j, (c, d, e) in enumerate(r_rows):
+                if a is not None and c is not None and a == c:
+                    out.append([fmt(a), fmt(s), fmt(c), fmt(d), fmt(e)])
+                    lm.add(i)
+                    rm.add(j)
+        if jt in ('left_outer', 'full_outer'):
+            out += [[fmt(a), fmt(s), None, None, None] for i, (a, s) in enumerate(l_rows) if i not in lm]
+        if jt in ('right_outer', 'full_outer'):
+            out += [[None, None, fmt(c), fmt(d), fmt(e)] for j, (c, d, e) in enumerate(r_rows) if j not in rm]
+        return out
+    L, R = '(scan $0 (list $0.0 $0.1) true)', '(scan $1 (list $1.0 $1.1 $1.2) true)'
+    plans = []
+    for jt in ('inner', 'left_outer', 'right_outer', 'full_outer'):
+        impls = {'hash': '(hashjoin %s true (list $0.0) (list $1.0) %s %s)' % (jt, L, R),
+                 'merge': '(mergejoin %s true (list $0.0) (list $1.0) (order (list $0.0) %s) (order (list $1.0) %s))' % (jt, L, R)}
+        if jt in ('inner', 'left_outer'):
+            impls['nested-loop'] = '(join %s (= $0.0 $1.0) %s %s)' % (jt, L, R)
+        for impl, p in impls.items():
+            plans.append((jt, impl, p))
+    out, rc, err = rl('planrun', {'setup': setup, 'plans': [p for _, _, p in plans]}, timeout=300)
+    got = {o['plan']: o for o in out if 'plan' in o}
+    n = ok = 0
+    for jt, impl, p in plans:
+        o = got.get(p)
+        if o is None:
+            rep.fail_inconclusive('heterogeneous-schema join probe did not run for %s via %s: %s' % (jt, impl, err[-200:]))
+            continue
+        n += 1
+        exp = expected(jt)
+        rows = o['rows'] if o.get('ok') and not o.get('panicked') else None
+        if rows is not None and canon(rows) == canon(exp):
+            ok += 1
+            continue
+        what = 'the %s implementation of a %s join between (INT, VARCHAR) and (INT, BIGINT, BOOLEAN) inputs returns %s, expected %d rows%s' % (
+            impl, jt, ('%d rows' % len(rows)) if rows is not None else ('an error / panic: %s' % (o.get('err') or 'panic')), len(exp),
+            '' if rows is None else '; e.g. only in the engine %s, missing %s' % (json.dumps([r for r in rows if r not in exp][:2]), json.dumps([r for r in exp if r not in rows][:2])))
+        outc = rep.counterexample('executor:join-hetero:%s:%s' % (jt, impl), what[:600], {'setup': setup, 'plan': p, 'rows': rows, 'expected': exp}, True)
+        rep.obligation(outc == 'known')
+    if n and n == ok:
+        rep.obligation(True)
+    rep.cov['executor_conformance_hetero'] = {'runs_compared': n, 'agreeing': ok}
